@@ -136,7 +136,7 @@ func awaitEndIgnoring(done <-chan struct{}, watchdog time.Duration, ignore func(
 		quiet := func() ([]gInfo, bool) {
 			gs := goroutineDump()
 			for _, g := range gs {
-				if g.State != "running" && !parkedState(g.State) && (ignore == nil || !ignore(g)) {
+				if g.State != "running" && !parkedG(g) && (ignore == nil || !ignore(g)) {
 					return gs, false
 				}
 			}
